@@ -5,7 +5,7 @@ from __future__ import annotations
 from ..interp import Hooks, explore
 from ..model import norm
 from ..values import ClsRef, Const, NodeV, Str, Sym, tagof
-from ..execmodel import R
+from ..execmodel import R, sget, sset, sowner, sowners
 from .common import all_kinds, find_store_site, same_val, site_loc, sql_root, text_of, traces
 
 EXPLANATION = (
@@ -70,7 +70,7 @@ def rule_count(ctx):
             if tr.path.outcome != "return":
                 continue
             n += 1
-            rc = tr.cur.attrs.get(R().rowcount)
+            rc = sget(tr.cur, "rowcount")
             pub = tr.public_rowcount
             ok = _count_sym(rc) and rc.origin[1] == 1
             ctx.ob("C04.a", f"{kind}: rowcount is the engine's affected count", ok, site_loc(prog, "cursor", site), tagof(rc))
@@ -92,8 +92,8 @@ def rule_count(ctx):
             if tr.path.outcome != "return":
                 continue
             n += 1
-            rc = tr.cur.attrs.get(R().rowcount)
-            tab = tr.cur.attrs.get(R().table)
+            rc = sget(tr.cur, "rowcount")
+            tab = sget(tr.cur, "table")
             ok = isinstance(rc, Sym) and tab is not None and getattr(tab, "attrs", {}).get("num_rows") is rc
             ctx.ob("C04.a", f"{kind}: rowcount is the number of result rows", ok, site_loc(prog, "cursor", site), tagof(rc))
             if not ok:
@@ -196,11 +196,11 @@ def rule_last_statement(ctx):
                 continue
             n += 1
             last_exec = tr.engine_sql[-1]
-            last_sql = tr.cur.attrs.get(R().last_sql)
-            tab = tr.cur.attrs.get(R().table)
+            last_sql = sget(tr.cur, "last_sql")
+            tab = sget(tr.cur, "table")
             fetched_after = getattr(tab, "attrs", {}).get("of_call")
             ok_fetch = isinstance(fetched_after, Const) and fetched_after.v == len(tr.engine_sql) - 1
-            lp = tr.cur.attrs.get(R().last_params)
+            lp = sget(tr.cur, "last_params")
             # recorded statement is not the user's statement => it is one fakesnow generated (status / DESCRIBE rewrite): no placeholders
             recorded_is_status = not same_val(last_sql, tr.engine_sql[0]) if last_sql is not None else False
             ok_params = (isinstance(lp, Const) and lp.v is None) if recorded_is_status else (isinstance(lp, Sym) and lp.tag == "params")
@@ -242,18 +242,18 @@ def rule_count_survives_reads(ctx):
 
         def run(I, reader=reader, call=call):
             duck, conn, cur = make_session()
-            cur.attrs[R().last_sql] = Sym("LAST_SQL", typ="str", truthy=True)
-            cur.attrs[R().table] = Obj("pending_table", kind="arrow")
-            cur.attrs[R().index] = Sym("pending_index", typ="int")
-            cur.attrs[R().last_params] = Sym("LAST_PARAMS")
-            cur.attrs[R().rowcount] = Sym("DML_ROWCOUNT", typ="int")
+            sset(cur, "last_sql", Sym("LAST_SQL", typ="str", truthy=True))
+            sset(cur, "table", Obj("pending_table", kind="arrow"))
+            sset(cur, "index", Sym("pending_index", typ="int"))
+            sset(cur, "last_params", Sym("LAST_PARAMS"))
+            sset(cur, "rowcount", Sym("DML_ROWCOUNT", typ="int"))
             sessions.append(cur)
             v = I.getattr(cur, reader)
             return I.call(v, [], {}, None) if call else v
 
         for p, cur in zip(explore(prog, lambda: ExecHooks(None), run, max_paths=64), sessions):
             n += 1
-            rc = cur.attrs.get(R().rowcount)
+            rc = sget(cur, "rowcount")
             ok = isinstance(rc, Sym) and rc.tag == "DML_ROWCOUNT"
             ctx.ob("C04.h", f"rowcount is unchanged by reading cursor.{reader}", ok, loc, tagof(rc))
             if not ok:
